@@ -135,6 +135,9 @@ def run(tier='quick'):
                           '(a disjunct tests a list non-empty that its conversion helper pads to a positive minimum on '
                           'every return) or the field has another, unconditional location: otherwise a sparse snapshot '
                           'that carries only such a field is accepted and the field is silently dropped', floor=2)
+    R18 = chk.rule('R18', 'what update() / create_track store for a snapshot field is computed from the snapshot on every '
+                          'path: no alternative of the written value is the stored value of the same location carried over '
+                          '(objects handed to helpers by non-const reference are followed)', floor=20)
     # ---- R4 ----------------------------------------------------------------------------
     reps = representative_versions(prog, order, v1lo, v1hi, v2lo, v2hi)
     nfields = 0
@@ -291,7 +294,63 @@ def _range_worker(args):
         _role_pairing(prog, chk, R4, M, asnap, aupd, ver)
     for which, a, W in (('update', aupd, wu), ('create_track', acre, wc)):
         _conditional_write_coverage(prog, chk, 'R14', gen, ver, which, a, W, M.fields)
+        _stored_value_kept(chk, 'R18', gen, ver, which, a)
     return chk.calls, nfields
+
+
+def _stored_value_kept(chk, rid, gen, ver, which, a):
+    """What update() / create_track store for a snapshot field is computed from the snapshot on every path: no
+    alternative of the value written to a location is that location's own stored value carried over (a helper that
+    keeps the old beat grid when a lock flag is set makes the call return normally with the given grid dropped)."""
+    f = a.func
+    pname = [p.get('name') for p in f.params if 'track_snapshot' in (p.get('type') or '')]
+    if not pname:
+        return
+    pname = pname[0]
+    n = 0
+    for w in a.writes:
+        ms = fm.blob_members(w.value)
+        for m in (ms or ['']):
+            mv = vf.member(w.value, m) if m else w.value
+            if not fm.ins_of(mv, pname):
+                continue
+            n += 1
+            key = (w.table.lower(), w.column.lower(), m)
+            kept = None
+            for alt in _alternatives(mv):
+                ls = list(vf.leaves(alt))
+                if any(x[0] == 'in' for x in ls):
+                    continue
+                locs = {(x[1].lower(), x[2].lower(), (x[4] or '').split('.')[0] if m else '') for x in ls if x[0] == 'loc'}
+                if locs and locs == {key if m else (key[0], key[1], '')}:
+                    kept = alt
+            inst = '%s (%s..) %s: %s.%s%s is computed from the snapshot on every path' % (
+                gen, ver, which, w.table, w.column, ('.' + m) if m else '')
+            if kept is None:
+                chk.ok(rid, inst, locstr(f.node))
+            else:
+                chk.violation(rid, '%s|%s|%s.%s%s keeps its stored value on some path' % (gen, which, w.table, w.column,
+                                                                                          ('.' + m) if m else ''),
+                              locstr(f.node),
+                              '%s: not so - one alternative of the written value is the stored value of the location itself, '
+                              'carried over unchanged: on that path the call returns normally and the value given in the '
+                              'snapshot is dropped' % inst)
+    return n
+
+
+def _alternatives(t, depth=0):
+    if not isinstance(t, tuple) or not t or depth > 12:
+        return [t]
+    if t[0] == 'phi':
+        out = []
+        for a in t[1]:
+            out += _alternatives(a, depth + 1)
+        return out
+    if t[0] == 'ite':
+        return _alternatives(t[2], depth + 1) + _alternatives(t[3], depth + 1)
+    if t[0] in ('call', 'callm') and len(t) > 3 and isinstance(t[3], tuple) and t[3] and t[3][0] in ('phi', 'ite'):
+        return _alternatives(t[3], depth + 1)
+    return [t]
 
 
 def _disjuncts(t):
